@@ -44,7 +44,7 @@ CONSTANTS
     Profile    \* skeletons: "expr" : the full expression grammar (use a small MaxTok)
                \*            "stmt" : all statements, expressions cut down to a few
                \*                     representative forms (allows a larger MaxTok)
-               \*            "forms": one statement, bodies empty or a line break
+               \*            "forms": one statement with empty bodies, on the first or second line
 
 VARIABLES
     out,       \* tokens derived so far / symbols of the string
@@ -144,11 +144,12 @@ StmtProds ==
      !.Args  = { <<>>, <<"N">>, <<"N", "=", "1">>, <<"N", "=", "1", ",", "**", "N">> },
      !.Params = { <<>>, <<"N">>, <<"N", "=", "1">>, <<"N", ",", "N">> },
      !.Target = { <<"N">>, <<"N", ",", "N">> } ]
-\* the "forms" profile: exactly one statement, bodies empty or one text token
+\* the "forms" profile: exactly one statement with empty bodies, on line 1 or 2
 FormProds ==
   [StmtProds EXCEPT
-     !.Template = { <<"Stmt">>, <<"VS", "ExprT", "VE">>, <<"CS", "c", "CE">>, <<"BS", "extends", "Expr", "BE">> },
-     !.Elems = { <<>>, <<"nl">> } ]
+     !.Template = { <<"Stmt">>, <<"VS", "ExprT", "VE">>, <<"CS", "c", "CE">>, <<"BS", "extends", "Expr", "BE">>,
+                    <<"t", "nl", "Stmt">> },
+     !.Elems = { <<>> } ]
 Prods == CASE Profile = "stmt" -> StmtProds [] Profile = "forms" -> FormProds [] OTHER -> FullProds
 
 NonTerms == DOMAIN Prods
@@ -190,7 +191,7 @@ ExtraToks == {"endset", "elif", "trans", "endtrans", "pluralize", "do", "break",
               "{{-", "-}}", "}", "{", "#", "##", "0x", "1e", "1_", "."}
 AllToks == Terminals \cup ExtraToks
 FewToks == {"BS", "BE", "VS", "VE", "N", "(", ")", ",", "=", "|", "else", "endfor", "is", "'", "1", "nl", "%", ":"}
-TinyToks == {"break", "("}
+TinyToks == {"break"}
 MutToks == CASE MutSet = "all" -> AllToks [] MutSet = "few" -> FewToks [] MutSet = "tiny" -> TinyToks [] OTHER -> {}
 
 CountNl(s) == Cardinality({i \in 1..Len(s) : s[i] = "nl"})
